@@ -13,7 +13,7 @@ import copy
 import random
 from dataclasses import dataclass
 
-from selftest.mutants import ANCHORS, _functions, _match
+from selftest.mutants import ANCHORS, NEUTRAL_EXTRA, _functions, _match
 
 
 @dataclass
@@ -71,7 +71,7 @@ class _Renamer(ast.NodeTransformer):
 
 
 def generate(prop: str, modules: dict[str, str], limit: int = 36, seed: int = 0) -> list[Neutral]:
-    pats = ANCHORS.get(prop, [])
+    pats = ANCHORS.get(prop, []) + NEUTRAL_EXTRA.get(prop, [])
     out: list[Neutral] = []
     for modname, src in sorted(modules.items()):
         if not any(p.startswith(modname + ".") for p in pats):
